@@ -8638,10 +8638,15 @@ func (c *BytecodeCompiler) emitReturn(location *position.Location, value ast.Nod
 		}
 	}
 
-	switch c.lastOpCode {
-	case bytecode.RETURN, bytecode.RETURN_FIRST_ARG,
-		bytecode.RETURN_SELF, bytecode.RETURN_FINALLY:
-		return
+	if value == nil {
+		// the implicit return at the end of a body is redundant after an explicit one;
+		// an explicit `return value` is never dropped: the preceding return may be
+		// conditional (`return a if c` is followed by the jump target of its condition)
+		switch c.lastOpCode {
+		case bytecode.RETURN, bytecode.RETURN_FIRST_ARG,
+			bytecode.RETURN_SELF, bytecode.RETURN_FINALLY:
+			return
+		}
 	}
 
 	if c.isGenerator {
